@@ -82,6 +82,8 @@ void AutomationMgr::createBinding(int slot, const char *path, bool start_midi_le
         au.param_type = 'f';
     else if(strstr(port->name, ":T"))
         au.param_type = 'T';
+    else if(!strstr(port->name, ":i") && strstr(port->name, ":c"))
+        au.param_type = 'c'; //a char parameter (rParam) only accepts 'c'
     if(au.param_type == 'T') {
         au.param_min = 0.0;
         au.param_max = 1.0;
@@ -156,14 +158,14 @@ void AutomationMgr::setSlotSub(int slot_id, int par, float value)
     char type = au.param_type;
 
     char msg[256] = {0};
-    if(type == 'i') {
+    if(type == 'i' || type == 'c') {
         float v = value*(b-a) + a;
         if(v > mx)
             v = mx;
         else if(v < mn)
             v = mn;
 
-        rtosc_message(msg, 256, path, "i", (int)roundf(v));
+        rtosc_message(msg, 256, path, type == 'c' ? "c" : "i", (int)roundf(v));
     } else if(type == 'f') {
         float v = value*(b-a) + a;
         if(v > mx)
@@ -278,6 +280,8 @@ void AutomationMgr::setSlotSubPath(int slot, int ind, const char *path)
         au.param_type = 'f';
     else if(strstr(port->name, ":T"))
         au.param_type = 'T';
+    else if(!strstr(port->name, ":i") && strstr(port->name, ":c"))
+        au.param_type = 'c'; //a char parameter (rParam) only accepts 'c'
     if(au.param_type == 'T') {
         au.param_min = 0.0;
         au.param_max = 1.0;
